@@ -53,6 +53,12 @@ DEVICES = [
     {{'name': 'D', 'is_input': True, 'is_output': False}},
     {{'name': 'D', 'is_input': False, 'is_output': True}},
     {{'name': 'E', 'is_input': False, 'is_output': False}},
+    {{'name': 'G', 'is_input': False, 'is_output': True}},
+    {{'name': 'H', 'is_input': True, 'is_output': False}},
+    {{'name': 'G', 'is_input': True, 'is_output': False}},
+    {{'name': 'H', 'is_input': False, 'is_output': True}},
+    {{'name': 'H', 'is_input': False, 'is_output': True}},
+    {{'name': 'G', 'is_input': True, 'is_output': False}},
 ]
 class _P:
     kind = None
@@ -73,6 +79,12 @@ class Output(_P):
 IOPORT = '''
 class IOPort(_P):
     kind = 'IOPort'
+    def __init__(self, name=None, **kwargs):
+        _P.__init__(self, name, **kwargs)
+        if name == 'RAISE-ATTR':
+            raise AttributeError('native IOPort failed inside its constructor')
+        if name == 'RAISE-OS':
+            raise OSError('device busy')
 '''
 GETDEV = '''
 def get_devices(**kwargs):
@@ -80,7 +92,8 @@ def get_devices(**kwargs):
     return [dict(d) for d in DEVICES]
 '''
 DEVICES = [('A', True, False), ('B', True, True), ('C', False, True), ('B', True, True),
-           ('D', True, False), ('D', False, True), ('E', False, False)]
+           ('D', True, False), ('D', False, True), ('E', False, False), ('G', False, True), ('H', True, False),
+           ('G', True, False), ('H', False, True), ('H', False, True), ('G', True, False)]
 
 
 def nshards(tier):
@@ -224,6 +237,65 @@ def grid():
             yield (entry, given, env_in, env_out, env_io, api_mode, use_environ, via_env, mod, load)
 
 
+def extra_sequences(ctx, LOG):
+    """Errors from a native IOPort propagate; the environment is read at every call."""
+    n = 0
+    saved_env = {k: os.environ.get(k) for k in ENVV}
+    try:
+        for k in ENVV:
+            os.environ.pop(k, None)
+        for mod in ('vmonbk_a', 'vmonbk_b'):
+            for name, exc in (('RAISE-ATTR', AttributeError), ('RAISE-OS', OSError)):
+                purge()
+                del LOG[:]
+                case = {'kind': 'native-ioport-raises', 'module': mod, 'name': name}
+                b = Backend(mod)
+                try:
+                    r = b.open_ioport(name)
+                    ctx.check('native IOPort iff present', False, 'native-error-swallowed', case, type(r).__name__)
+                    if isinstance(r, ports.IOPort):
+                        r.closed = True
+                except exc:
+                    ctx.count('native IOPort iff present')
+                except Exception as e2:
+                    ctx.check('native IOPort iff present', False, f'native-error-changed:{type(e2).__name__}', case, repr(e2))
+                calls = [e[0] for e in LOG if e[0] != 'import']
+                ctx.check('constructor calls == model', calls == ['IOPort'], 'native-error-fallback-calls', case, calls)
+                n += 1
+        # one Backend object, the environment changes between calls
+        for mod in VARIANTS:
+            purge()
+            b = Backend(mod)
+            for entry, var, kind in (('open_input', 'MIDO_DEFAULT_INPUT', 'Input'),
+                                     ('open_output', 'MIDO_DEFAULT_OUTPUT', 'Output'),
+                                     ('open_ioport', 'MIDO_DEFAULT_IOPORT', None)):
+                seen = []
+                for value in (None, 'first', 'second', None, 'third'):
+                    if value is None:
+                        os.environ.pop(var, None)
+                    else:
+                        os.environ[var] = value
+                    del LOG[:]
+                    r = getattr(b, entry)()
+                    if isinstance(r, ports.IOPort):
+                        r.closed = True
+                    seen.append([e[2] for e in LOG if e[0] != 'import'])
+                want = [[v] * len(seen[0]) for v in (None, 'first', 'second', None, 'third')]
+                ctx.check('constructor calls == model', seen == want, f'stale-environment:{entry}',
+                          {'kind': 'env-sequence', 'module': mod, 'entry': entry}, lambda: {'got': seen, 'want': want})
+                os.environ.pop(var, None)
+                n += 1
+    except Exception as exc:
+        ctx.fail('no exception', f'extra:{type(exc).__name__}', {'kind': 'extra'}, f'{type(exc).__name__}: {exc}')
+    finally:
+        for k, v in saved_env.items():
+            if v is None:
+                os.environ.pop(k, None)
+            else:
+                os.environ[k] = v
+    return n
+
+
 def set_backend_sequences(ctx, LOG):
     """set_backend rebinds open_*/get_* and mido.backend; same module, different API included."""
     saved_env = {k: os.environ.get(k) for k in ENVV}
@@ -336,6 +408,9 @@ def run(ctx):
                 k = set_backend_sequences(ctx, LOG)
                 ctx.nontrivial(None, k)
                 n += k
+                k = extra_sequences(ctx, LOG)
+                ctx.nontrivial(None, k)
+                n += k
         finally:
             sys.path.remove(d)
             purge()
@@ -354,6 +429,7 @@ def replay(ctx, case):
                 judge_config(ctx, tuple(case['cfg']), vmonbk_log.LOG)
             else:
                 set_backend_sequences(ctx, vmonbk_log.LOG)
+                extra_sequences(ctx, vmonbk_log.LOG)
         finally:
             sys.path.remove(d)
             purge()
